@@ -34,7 +34,7 @@ CLAIMS = {
    "DESIGN.md section 4 C19, E8"),
  "C13": ("other",
    "def-use and dominance analysis on go/ssa of both sides of the status file: constants with the polarity of the writer's bool parameter vs. the reader's switch cases and what each case feeds into the device-policy variable; must-pass (post-dominance) search in do-approve",
-   "Decides the structural core: writer and reader agree on every status constant and its meaning (success accepted with its policy, failure not accepted, UPTODATE accepted, DIFF lists, sticky DIFF with the approved-since exception, compare consulted only when later than the accepted approve); the reader cannot abort and lists the zero value; all parts (code, ipv6, raw, bz2) are compared; in do-approve every path after the session updates the status and writes END:, and FAILED/return 1 derive exactly from the session result; the recorded policy is a parameter of the status writer and derives from the same resolution of `current` as the code file handed to the session; both sides of the code comparison are whole file contents; the log-line prefixes do-approve parses are produced and the info channel cannot be switched off from do-approve. Not decided: sufficiency of the two-slot encoding over all histories.",
+   "Decides the structural core: writer and reader agree on every status constant and its meaning (success accepted with its policy, failure not accepted, UPTODATE accepted, DIFF lists, sticky DIFF with the approved-since exception, compare consulted only when later than the accepted approve); the reader cannot abort and lists the zero value; all parts (code, ipv6, raw, bz2) are compared; in do-approve every path after the session updates the status and writes END:, and FAILED/return 1 derive exactly from the session result; the recorded policy is a parameter of the status writer and derives from the same resolution of `current` as the code file handed to the session; both sides of the code comparison are whole file contents; the log-line prefixes do-approve parses are produced and the info channel cannot be switched off from do-approve; every part is compared in every iteration; a failed approve resets an older compare verdict (one genuine defect found by this rule was repaired, fix: 4a58555). Not decided: sufficiency of the two-slot encoding over all histories.",
    "Trusted: go/ssa; shared struct type makes field names agree. Histories, clocks and file removal are runtime matters.",
    "DESIGN.md section 4 C13"),
  "C09": ("other",
